@@ -49,7 +49,7 @@ func (c *constExpr) Exit(node *Node) {
 					param = a.Value
 					// The checker may have retyped the literal to the
 					// parameter's numeric kind (FloatFn(1)).
-					if t := a.Type(); t != nil && t.Kind() != reflect.Int && t.Kind() != reflect.Interface &&
+					if t := a.Type(); t != nil && t != reflect.TypeOf(0) && t.Kind() != reflect.Interface &&
 						reflect.TypeOf(a.Value).ConvertibleTo(t) {
 						param = reflect.ValueOf(a.Value).Convert(t).Interface()
 					}
